@@ -7,7 +7,7 @@
     rejection of malformed text, and that the Go builder does what Model/Front.v and Reader/FileBridge.v say
     it does, are decided by the correspondence run. *)
 From PegV Require Import Base.Tac Spec.Syntax Spec.Peg Proofs.PegRel Model.Calls Model.Front Proofs.FrontProofs
-  Generated.PegPeg Reader.Base Reader.Lex Reader.Chars Reader.Lits Reader.Expr Reader.Bridge Reader.File Reader.FileBridge Reader.Top Reader.Shipped.
+  Generated.PegPeg Reader.Base Reader.Lex Reader.Chars Reader.Lits Reader.Expr Reader.Bridge Reader.BridgeDefs Reader.File Reader.FileBridge Reader.Reject Reader.Safe Reader.Top Reader.Shipped.
 From PegV Require Import Model.Machine Model.Gen Proofs.OptSound Proofs.Top.
 Open Scope Z_scope.
 
@@ -99,6 +99,75 @@ Theorem C10_reader_file_shipped :
     file_nodes nm ak f = Some nodes.
 Proof. exact reader_file_shipped. Qed.
 Print Assumptions C10_reader_file_shipped.
+
+(** ** malformed text
+    Three families of text that is not a grammar, each refused by peg.peg's own rule tree under the reference
+    semantics (the rule Grammar fails) and hence, by [C10_rejected_by_shipped_parser], by the parser that is
+    shipped (Parse() returns an error): a well-formed file followed by a character that starts nothing - a closing
+    bracket, '=', ',', ';', '|', a non-ASCII character ... - (a rule ends only before another rule or at the end of
+    the text); a text whose first token after comments and blank lines is not the word "package" (the empty text
+    and a text of comments only included); a text with no rule behind the parser type. *)
+Theorem C10_rejects_trailing_text :
+  forall penv f c m, file_ok f -> junk_head c = true ->
+  exists n evs, peg_ev pegpeg_d pegpeg_d_ptx (fshow f ++ c :: m) penv n (EName pr_Grammar) 0 = Some (Fail, evs).
+Proof. intros penv f c m Hf Hj. exact (grammar_rejects_trailing _ penv f c m Hf Hj eq_refl). Qed.
+Print Assumptions C10_rejects_trailing_text.
+
+Theorem C10_rejects_text_without_package :
+  forall penv hdr tl, header_ok hdr tl -> stop tl -> (forall r, tl <> kw_package ++ r) ->
+  exists n evs, peg_ev pegpeg_d pegpeg_d_ptx (flat_map hshow hdr ++ tl) penv n (EName pr_Grammar) 0 = Some (Fail, evs).
+Proof. intros penv hdr tl Hh Hst N. exact (grammar_rejects_no_package _ penv hdr tl Hh Hst N eq_refl). Qed.
+Print Assumptions C10_rejects_text_without_package.
+
+Theorem C10_rejects_text_without_rules :
+  forall penv f J, head_ok f -> stop J -> (forall c r, J = c :: r -> is_istart c = false) ->
+  exists n evs, peg_ev pegpeg_d pegpeg_d_ptx (head_text f ++ J) penv n (EName pr_Grammar) 0 = Some (Fail, evs).
+Proof. intros penv f J Hf HJ Hn. exact (grammar_rejects_no_rules _ penv f J Hf HJ Hn eq_refl). Qed.
+Print Assumptions C10_rejects_text_without_rules.
+
+Theorem C10_rejected_by_shipped_parser :
+  forall penv buf memo inline st0,
+  (exists n evs, peg_ev pegpeg_d pegpeg_d_ptx buf penv n (EName pr_Grammar) 0 = Some (Fail, evs)) ->
+  good_buf buf -> valid_buf buf -> slot_ok pegpeg_is inline 0 ->
+  exists n st', machine pegpeg_is pegpeg_is_ptx buf penv memo inline n 0 st0 = Some (Ret false st').
+Proof. exact rejected_shipped. Qed.
+Print Assumptions C10_rejected_by_shipped_parser.
+
+(** non-vacuity: the sample file followed by ")" ; "type T Peg {}" alone; the sample's head with nothing behind *)
+Example C10_reject_nonvacuous :
+  junk_head 41 = true /\ junk_head 61 = true /\ junk_head 233 = true /\ junk_head 97 = false /\ junk_head 32 = false /\
+  fst (match peg_ev pegpeg_d pegpeg_d_ptx (fshow sample_file ++ [41]) (fun _ _ => false) 1500 (EName pr_Grammar) 0 with
+       | Some r => r | None => (Succ 0 [], []) end) = Fail /\
+  fst (match peg_ev pegpeg_d pegpeg_d_ptx [116; 121; 112; 101; 32; 84; 32; 80; 101; 103; 32; 123; 125] (fun _ _ => false) 300 (EName pr_Grammar) 0 with
+       | Some r => r | None => (Succ 0 [], []) end) = Fail /\
+  fst (match peg_ev pegpeg_d pegpeg_d_ptx (head_text sample_file) (fun _ _ => false) 1500 (EName pr_Grammar) 0 with
+       | Some r => r | None => (Succ 0 [], []) end) = Fail.
+Proof. vm_compute. repeat split; reflexivity. Qed.
+
+(** ** every accepted text
+    Whatever text the rule Grammar accepts - one that Reader/Defs.v describes or any other -, the builder calls its
+    actions make go through: no call pops an empty expression stack, AddRange / AddDoubleRange find two character
+    nodes, AddCharacter / AddDoubleCharacter get exactly one character, a rule is opened and closed in turn; at the
+    end there is a package name, the parser type with its state, at least one rule, and nothing half-built.  (A
+    stack-effect analysis of the rule tree, proved sound for every derivation - Reader/Safe.v - with the table of
+    rule effects computed and checked by evaluation on the regenerated tree.)  Since the builder runs only after
+    the whole text was accepted, "never a crash, never an empty parser" holds for every text. *)
+Theorem C10_accepted_text_builds_a_grammar :
+  forall (nm ak : list rune -> nat) penv buf n p f evs,
+  peg_ev pegpeg_d pegpeg_d_ptx buf penv n (EName pr_Grammar) 0 = Some (Succ p f, evs) ->
+  exists s', frun nm ak (calls_of_forest buf f) finit = Some s' /\ stk s' = [] /\ pend s' = None /\ pegn s' = None /\
+    (exists pk, In (NPackage pk) (back s')) /\ (exists name st, In (NPeg name st) (back s')) /\
+    (exists name e, In (NRule name e) (back s')).
+Proof. intros nm ak penv buf. exact (accepted_text_builds nm ak buf penv). Qed.
+Print Assumptions C10_accepted_text_builds_a_grammar.
+
+(** the analysis is not vacuous: the table gives an effect to every rule but Grammar and Definition (whose
+    AddRule / AddExpression / AddPeg / AddState protocol the theorem handles itself), and an expression pushes one node *)
+Example C10_effects_nonvacuous :
+  length (filter (fun r => match nth_error pegpeg_d r, eff_tab r with Some (RBody _), None => true | _, _ => false end) (seq 0 (length pegpeg_d))) = 2%nat /\
+  eff_tab pr_Expression = Some (mkeff [] [KAny] false (Some false)) /\
+  eff_tab pr_Char = Some (mkeff [] [KChr] false (Some false)).
+Proof. vm_compute. repeat split; reflexivity. Qed.
 
 (** the lexical layer on its own: any layout is skipped; every spelling of a character is read as its call *)
 Theorem C10_reader_spacing :
